@@ -139,3 +139,55 @@ def load(crate, features=(), default_features=True, guard=True):
     prog.parse_errors = errs
     _programs[key] = (prog, info)
     return prog, info
+
+
+def dump_external(name, src_dir, hash_crates=()):
+    """MIR of a small crate kept under /verif (sources in src_dir: Cargo.toml.in with @REPO@ / @SRC@, src/lib.rs) that depends on the repository under test by
+    path - used where the code to execute only exists after macro expansion (derive output). The cache key covers the crate's own sources and the sources of
+    the repository crates named in hash_crates."""
+    import shutil
+    h = hashlib.sha256()
+    for c in hash_crates:
+        h.update(source_hash(os.path.join(REPO, c), ()).encode())
+    for dp, dn, fn in os.walk(src_dir):
+        for f in sorted(fn):
+            h.update(open(os.path.join(dp, f), 'rb').read())
+    h = h.hexdigest()[:16]
+    os.makedirs(BUILD, exist_ok=True)
+    out = os.path.join(BUILD, 'mir-ext-%s-%s.mir' % (name, h))
+    if os.path.exists(out) and os.path.getsize(out) > 0:
+        return out, h, 0.0, True
+    import fcntl
+    lock = open(os.path.join(BUILD, 'mir-ext-%s.lock' % name), 'w')
+    fcntl.flock(lock, fcntl.LOCK_EX)
+    try:
+        if os.path.exists(out) and os.path.getsize(out) > 0:
+            return out, h, 0.0, True
+        import re
+        for f in os.listdir(BUILD):
+            if re.fullmatch(r'mir-ext-%s-[0-9a-f]{16}\.mir' % re.escape(name), f):
+                os.remove(os.path.join(BUILD, f))
+        d = os.path.join(BUILD, 'ext-' + name)
+        os.makedirs(d, exist_ok=True)
+        toml = open(os.path.join(src_dir, 'Cargo.toml.in')).read().replace('@REPO@', REPO).replace('@SRC@', os.path.join(src_dir, 'src'))
+        open(os.path.join(d, 'Cargo.toml'), 'w').write(toml)
+        shutil.copy(os.path.join(REPO, 'Cargo.lock'), os.path.join(d, 'Cargo.lock'))
+        env = dict(os.environ)
+        env['CARGO_NET_OFFLINE'] = 'true'
+        env['CARGO_TARGET_DIR'] = os.path.join(BUILD, 'target-mir-ext')
+        env.pop('RUSTFLAGS', None)
+        cmd = ['cargo', '+nightly', 'rustc', '--offline', '--lib', '--', '-Zunpretty=mir', '-C', 'debug-assertions=off', '-C', 'overflow-checks=on',
+               '--cfg', 'verif_dump_%s_%d' % (h, int(time.time() * 1000))]
+        t0 = time.time()
+        tmp = out + '.%d.tmp' % os.getpid()
+        with open(tmp, 'w') as fo:
+            p = subprocess.run(cmd, cwd=d, env=env, stdout=fo, stderr=subprocess.PIPE, text=True)
+        if p.returncode != 0 or os.path.getsize(tmp) == 0:
+            err = p.stderr[-3000:]
+            os.remove(tmp)
+            raise RuntimeError('MIR dump failed for %s: %s' % (name, err))
+        os.rename(tmp, out)
+        return out, h, time.time() - t0, False
+    finally:
+        fcntl.flock(lock, fcntl.LOCK_UN)
+        lock.close()
